@@ -160,8 +160,11 @@ def legalMoves (p : Pos) : List Move := (candidates p).filter (legal p)
 inductive Status | ongoing | stalemate | checkmate
 deriving DecidableEq, Repr
 
+/-- Article 5.1 / 5.2: no legal move and in check = checkmate; no legal move and not in check =
+stalemate. -/
 def status (p : Pos) : Status :=
-  if (legalMoves p).isEmpty then (if inCheck p p.stm then .checkmate else .stalemate) else .ongoing
+  if (candidates p).any (legal p) then .ongoing
+  else if inCheck p p.stm then .checkmate else .stalemate
 
 def count (p : Pos) (f : Piece × Color → Bool) : Nat := (allSq.filter fun s => (p.board s).any f).length
 
